@@ -1,6 +1,7 @@
 //! Correspondence harness: runs the real rs-tftpd code on line-protocol cases.
 mod capture;
 mod codec;
+mod config;
 mod server;
 mod util;
 mod worker;
@@ -24,6 +25,7 @@ fn dispatch(line: &str) -> String {
         }
         "rcv" => worker::rcv_line(&toks),
         "req" => server::req_line(&toks),
+        "cfg" => config::cfg_line(&toks),
         "storm" => server::storm_line(&toks),
         _ => "bad-op".to_string(),
     }
